@@ -39,6 +39,43 @@ let run (suite : string) (inp : Sx.t) : Sx.t =
         EventBuf.push_rows conv EventBuf.CEmpty Datatypes.O (to_list (to_opt to_val) col)) (lst cols) in
       if Stdlib.List.exists (fun r -> r = EventBuf.PushPanic) results then A "panic"
       else L (Stdlib.List.map (fun r -> match r with EventBuf.Pushed d -> of_data d | _ -> A "panic") results)
+  | "encode_column", L [col; xor; mant] ->
+      let to_value x = match x with
+        | L [A "i"; i] -> Server.RInt (to_z i)
+        | L [A "f"; f] -> Server.RFloat (to_n f)
+        | L [A "s"; s] -> Server.RStr (to_bytes s)
+        | A "null" -> Server.RNull
+        | _ -> raise (Conv "value") in
+      let of_value v = match v with
+        | Server.RInt i -> L [A "i"; of_z i]
+        | Server.RFloat f -> L [A "f"; of_n f]
+        | Server.RStr s -> L [A "s"; of_bytes s]
+        | Server.RNull -> A "null" in
+      let c = match col with
+        | L [A "int"; xs] -> Server.BInt (to_list to_z xs)
+        | L [A "float"; xs] -> Server.BFloat (to_list to_n xs)
+        | L [A "string"; xs] -> Server.BString (to_list to_bytes xs)
+        | L [A "null"; n] -> Server.BNull (to_n n)
+        | L [A "mixed"; xs] -> Server.BMixed (to_list to_value xs)
+        | _ -> raise (Conv "basic column") in
+      let o = { Server.xor_float_compression = to_bool xor; Server.mantissa = to_opt to_n mant } in
+      (match Server.encode_column o c with
+       | Server.AInt xs -> L [A "int"; of_list of_z xs]
+       | Server.AFloat xs -> L [A "float"; of_list of_n xs]
+       | Server.AString xs -> L [A "string"; of_list of_bytes xs]
+       | Server.ANull n -> L [A "null"; of_n n]
+       | Server.AMixed xs -> L [A "mixed"; of_list of_value xs]
+       | Server.AXor b -> L [A "xor"; of_opt of_bytes b])
+  | "status", A name ->
+      (* position of the variant in the regenerated enum, by its name as printed by the translator *)
+      let names = ["SytaxErrorCharsRemaining"; "SyntaxErrorBytesRemaining"; "ParseError"; "FatalError";
+                   "NotImplemented"; "TypeError"; "Overflow"; "Canceled"] in
+      let rec find i l = match l with [] -> None | n :: r -> if n = name then Some i else find (i + 1) r in
+      (match find 0 names with
+       | None -> A "none"
+       | Some i -> (match Stdlib.List.nth_opt ServerMap.all_errors i with
+                    | None -> A "none"
+                    | Some e -> of_opt of_n (ServerMap.status_of e)))
   | "int_roundtrip", xs ->
       (match IntResponse.roundtrip (to_list to_z xs) with
        | None -> A "panic"
